@@ -1031,6 +1031,8 @@ func (u *Unit) evalCall(env *SpecEnv, x *ast.CallExpr) SV {
 	case "allocated":
 		al := u.heapGet(env.hv, "alloc", ArrSort(SInt, SBool))
 		return SV{V: Select(al, argT(0)), Typ: boolT}
+	case "strContains":
+		return SV{V: app(SBool, "str.contains", argT(0), argT(1)), Typ: boolT}
 	case "shared":
 		// shared(x): x is none of the objects this activation created and has not
 		// yet published (M9: what is reachable from lock-protected state is never
